@@ -154,6 +154,7 @@ def main(pid, tier="quick", seed=0, replay=None):
     samples = []
     reported = 0
     MAXREP = 5
+    failing, disagreeing = [], []
     for r in results:
         h = lib.jhash(r["case"])
         hist[mod.describe(r["case"])] += 1
@@ -169,17 +170,22 @@ def main(pid, tier="quick", seed=0, replay=None):
         if known_tag and known_tag in known_hashes:
             continue
         if r["oracle"] is not None:
-            if reported < MAXREP:
-                small = shrink_case(mod, r["case"], lambda c: mod.oracle(c, safe_impl(mod, c)) is not None, budget_s=20 if reported == 0 else 3)
-                so = safe_impl(mod, small)
-                v.violation("counterexample", {"case": small, "implementation_returned": so, "why": mod.oracle(small, so),
-                                               "original_case": r["case"], "replay_cmd": "./check %s --replay <this file>" % pid})
-            reported += 1
+            failing.append(r)
         elif not r["agree"]:
-            if reported < MAXREP:
-                v.violation("unproved", {"case": r["case"], "implementation_returned": r["impl"], "model_says": r["model"],
-                                         "correspondence": "model %s vs simfile: observable differs; the property oracle found no failing input on this case" % pid,
-                                         "theorems_no_longer_tied_to_code": proof.get("theorems", [])}, no_input=True)
+            disagreeing.append(r)
+    # a concrete failing input, when the search found one, is the report; disagreements on which the oracle found
+    # nothing are reported (as unproved, no failing input) only when there is no counterexample at all
+    for r in failing[:MAXREP]:
+        small = shrink_case(mod, r["case"], lambda c: mod.oracle(c, safe_impl(mod, c)) is not None, budget_s=20 if reported == 0 else 3)
+        so = safe_impl(mod, small)
+        v.violation("counterexample", {"case": small, "implementation_returned": so, "why": mod.oracle(small, so),
+                                       "original_case": r["case"], "replay_cmd": "./check %s --replay <this file>" % pid})
+        reported += 1
+    if not failing:
+        for r in disagreeing[:MAXREP]:
+            v.violation("unproved", {"case": r["case"], "implementation_returned": r["impl"], "model_says": r["model"],
+                                     "correspondence": "model %s vs simfile: observable differs; the property oracle found no failing input on this case" % pid,
+                                     "theorems_no_longer_tied_to_code": proof.get("theorems", [])}, no_input=True)
             reported += 1
     if proof.get("error"):
         # a broken obligation: search already ran above; if it produced no counterexample, say so
